@@ -2,6 +2,7 @@ package main
 
 import (
 	"fmt"
+	"math"
 
 	"github.com/advancedclimatesystems/gonnx/ops/opset13"
 	"verifmc/hx"
@@ -150,7 +151,7 @@ func checkC03(c *hx.Checker) {
 				alpha = []uint64{0, 1, 2}
 			}
 			n := len(alpha)
-			var pa, pb, za, zb []uint64
+			var pa, pb, za, zb, pza, pzb []uint64
 			for i := 0; i < n; i++ {
 				for j := 0; j < n; j++ {
 					if op == "Div" && dt.IsInt() {
@@ -162,9 +163,17 @@ func checkC03(c *hx.Checker) {
 						}
 					}
 					if op == "Div" && dt.IsFloat() && ref.DecF(dt, alpha[j]) == 0 {
-						// x / ±0 is kept in a case of its own (so a finding there cannot mask other pairs)
-						za = append(za, alpha[i])
-						zb = append(zb, alpha[j])
+						// x / ±0 is kept in cases of their own (so a finding there cannot mask other pairs): pairs whose
+						// IEEE quotient is +Inf - what the pinned kernel answers for every zero divisor (KF-C03-1), so
+						// these must keep passing - apart from the pairs whose quotient is -Inf or NaN
+						x, neg0 := ref.DecF(dt, alpha[i]), alpha[j] != 0
+						if !math.IsNaN(x) && x != 0 && (x < 0) == neg0 {
+							pza = append(pza, alpha[i])
+							pzb = append(pzb, alpha[j])
+						} else {
+							za = append(za, alpha[i])
+							zb = append(zb, alpha[j])
+						}
 						continue
 					}
 					pa = append(pa, alpha[i])
@@ -213,6 +222,17 @@ func checkC03(c *hx.Checker) {
 						}
 					}
 					if op == "Div" && dt.IsFloat() && ref.DecF(dt, alpha[j]) == 0 {
+						var good, rest []uint64
+						for _, xv := range va {
+							x := ref.DecF(dt, xv)
+							if !math.IsNaN(x) && x != 0 && (x < 0) == (alpha[j] != 0) {
+								good = append(good, xv)
+							} else {
+								rest = append(rest, xv)
+							}
+						}
+						addCase(op, &ref.T{DT: dt, Shape: []int{len(good)}, V: good}, single, "op", true, append(extra, "zero-divisor-quotient-is-+inf")...)
+						va = rest
 						extra = append(extra, "float-div-by-zero")
 					}
 					if !skip {
@@ -236,6 +256,9 @@ func checkC03(c *hx.Checker) {
 						addCase(op, single, &ref.T{DT: dt, Shape: []int{len(vb)}, V: vb}, "op", true, "special-values", "single-operand")
 					}
 				}
+			}
+			if len(pza) > 0 {
+				addCase(op, &ref.T{DT: dt, Shape: []int{len(pza)}, V: pza}, &ref.T{DT: dt, Shape: []int{len(pzb)}, V: pzb}, "op", true, "special-values", "zero-divisor-quotient-is-+inf")
 			}
 			if len(za) > 0 {
 				addCase(op, &ref.T{DT: dt, Shape: []int{len(za)}, V: za}, &ref.T{DT: dt, Shape: []int{len(zb)}, V: zb}, "op", true, "special-values", "float-div-by-zero")
